@@ -175,10 +175,26 @@ def direct(ctx):
             gr = rets[0].value
             if isinstance(sol, ast.Name):
                 # (the loader's canonical form spells the test positively: `if lu_factor is None: <solve> else: <lu_solve>`)
-                br = {s.guards[-1][1]: s.value for s in S if s.op == "=" and isinstance(s.tnode, ast.Name) and s.tnode.id == sol.id and len(s.guards) == 2 and s.guards[0] == (blocked, flag)
-                      and s.guards[1][0] in (ex("lu_factor is None"),)}
+                sols = {s.guards[-1][1]: s for s in S if s.op == "=" and isinstance(s.tnode, ast.Name) and s.tnode.id == sol.id and len(s.guards) == 2 and s.guards[0] == (blocked, flag)
+                        and s.guards[1][0] in (ex("lu_factor is None"),)}
+                br, opts = {}, {}
+                for pol, s in sols.items():
+                    v_ = s.vnode
+                    if isinstance(v_, ast.Call) and v_.keywords and all(k.arg in ("check_finite", "overwrite_a", "overwrite_b") and isinstance(k.value, ast.Constant) for k in v_.keywords):
+                        # scipy options that do not change the solution of a well-posed call; the overwrite flags are judged below
+                        opts[pol] = {k.arg: k.value.value for k in v_.keywords}
+                        br[pol] = roles.canon(ast.copy_location(ast.Call(func=v_.func, args=v_.args, keywords=[]), v_), defs).replace(" ", "")
+                    else:
+                        br[pol] = s.value
                 gv = br
                 ok_ret = br.get(False) == ex("lu_solve(lu_factor, %s)" % vec) and br.get(True) == ex("solve(A.weak_form().to_dense(), %s)" % vec)
+                for pol, o in opts.items():
+                    if o.get("overwrite_a"):
+                        ok_ret = False
+                        gv = "%s with overwrite_a=True: the dense weak form held by the operator is destroyed by the first solve" % br
+                    if o.get("overwrite_b") and kind == "single":
+                        ok_ret = False
+                        gv = "%s with overwrite_b=True: B.projections(...) may return the grid function's own projection array, which the solve then overwrites (a second solve with the same right-hand side, or with precomputed factors, solves another system)" % br
         r_lu.check(ok_ret, "lu %s solve/return" % kind, DS, "lu", rets[0].node.lineno if rets else fn.lineno, "lu %s returns %s" % (kind, gr),
                    "the %s path returns `%s` with the solution defined as %s; expected the result in A's domain space(s) from lu_solve(lu_factor, rhs) / solve(dense weak form, rhs) with rhs = %s" % (kind, gr, gv, vec))
     cf = dm.fn("compute_lu_factors")
